@@ -276,7 +276,12 @@ func (r *result) adjustAnnotations(annotations map[string]string, plugin string)
 		delete(del, k)
 	}
 
+	// removals without a corresponding set: release the key, drop it from the
+	// container shown to later plugins and from what was collected so far
 	for k := range del {
+		r.owners.clearAnnotation(id, k)
+		delete(create.Container.Annotations, k)
+		delete(r.reply.adjust.Annotations, k)
 		r.reply.adjust.Annotations[MarkForRemoval(k)] = ""
 	}
 
